@@ -427,6 +427,34 @@ func c07Persisted(c *Check, P string, r *GCRoles) {
 			"the persisted-message map is written under its write lock and read under its lock (or under the subscribers write lock)", "held: "+held.String())
 	}
 	c.Floor(P+".O6", "accesses to the persisted-message map", n, 6)
+	// the subscriber map: reads under the subscribers lock (any mode), writes under its write mode
+	ns := 0
+	for _, a := range r.LA.Accesses(r.Subs) {
+		fn := a.Ins.Parent()
+		if fn == r.New {
+			continue
+		}
+		ns++
+		held := r.LA.Held(a.Ins)
+		m, has := held[r.idSubs]
+		ok := has && (!a.Write || m == 'W')
+		c.Report(ok, P+".O6", "GUARDED-BY/subscribers", fn, a.Ins.Pos(), a.What+" of subscriber map", "the subscriber map is read under the subscribers lock and written under its write mode", "held: "+held.String())
+	}
+	c.Floor(P+".O6", "accesses to the subscriber map", ns, 8)
+	// a subscription's channel, closing signal and context are assigned once, when it is built in Subscribe
+	for _, f := range []*types.Var{r.SOut, r.SClosing, r.SCtx} {
+		for _, fn := range r.Funcs {
+			for _, st := range FieldStores(fn, f) {
+				c.Report(fn == r.Subscribe, P+".O6", "WHO-MAY-WRITE/subscription", fn, st.Pos(), "store to subscription field", "a subscription's output channel, closing signal and context are assigned only while it is built in Subscribe (immutable afterwards, so unsynchronised reads are safe)")
+			}
+		}
+	}
+	// the closed flag of a subscription is written only by its close function
+	for _, fn := range r.Funcs {
+		for _, st := range FieldStores(fn, r.SClosed) {
+			c.Report(fn == r.SubClose, P+".O6", "WHO-MAY-WRITE/subscription-closed", fn, st.Pos(), "store to the subscription's closed flag", "only the subscription close function sets the closed flag")
+		}
+	}
 }
 
 func c07LockHolders(c *Check, P string, r *GCRoles) {
